@@ -17,7 +17,7 @@ META = {
     "engine": "smallscope",
     "technique": "exhaustive enumeration of method x operand tuples (labels and nested expressions, with repetition) x lam x labels; full truth table of the added penalty",
     "text": "For each of the 16 add_constraint_G / add_constraint_eq_G methods, every operand tuple up to total arity 3 (quick) / 4 (thorough) (one more over a reduced alphabet) drawn with "
-            "repetition from {4 labels, NOT(a), AND(b,c), OR(a,d), XOR(b,d), a PUBO dict, the constant expressions 1 and 0}, lam in {1, 2.5}: the terms "
+            "repetition from {4 labels, NOT(a), AND(b,c), OR(a,d), XOR(b,d), a PUBO dict, the constant expressions 1 and 0}, lam in {1, 2.5, 0.5}: the terms "
             "added to an empty PCBO are tabulated over all 16 assignments and must be 0 where the gate relation holds and >= lam elsewhere, mention no "
             "ancilla, and is_solution_valid must agree with the relation.",
     "note": "Bounded: 4 variables, arity <= 3/4, operand alphabet of 12. Reference gates are python booleans on reference tables.",
@@ -27,7 +27,7 @@ OPERANDS = [["lab", 0], ["lab", 1], ["lab", 2], ["lab", 3], ["NOT", 0], ["AND", 
             ["dict", 2], ["const", 1], ["const", 0],
             ["named-and", 1, 2]]      # a model object that carries the NAME of variable b but whose value is b AND c (in-place product)
 GATES = ["AND", "OR", "XOR", "NAND", "NOR", "XNOR"]
-LAMS = (1, 2.5)
+LAMS = (1, 2.5, 0.5)
 NV = 4
 
 
